@@ -698,54 +698,88 @@ def mesh_checks(ctx, model_ok):
         qr = I['QR'].create_quadrature_rule_1D(deg)
         xg = [float(x) for x in qr.xigauss]
         wg = [float(w) for w in qr.wgauss]
+        k = r.choice([1.0, 10.0 ** r.uniform(-1, 3)])
+        specs = []
         which = r.choice(['plane', 'corner', 'sphere'])
         if which == 'plane':
-            pars = (r.uniform(-0.2, ye[1] + 0.2),)
-            ls = partial(I['Levelset'].plane, yLoc=pars[0])
-            py = lambda x: pars[0] - x[1]
-            cq = lambda x: 'plane %s %s %s' % (fl(x[0]), fl(x[1]), fl(pars[0]))
+            specs.append(('plane', (r.uniform(-0.2, ye[1] + 0.2),)))
         elif which == 'corner':
-            pars = (r.uniform(-0.2, 0.5), r.uniform(-0.2, 0.5))
-            ls = partial(I['Levelset'].corner, xLoc=pars[0], yLoc=pars[1])
-            py = lambda x: min(x[0] - pars[0], x[1] - pars[1])
-            cq = lambda x: 'corner %s %s %s %s' % (fl(x[0]), fl(x[1]), fl(pars[0]), fl(pars[1]))
+            specs.append(('corner', (r.uniform(-0.2, 0.5), r.uniform(-0.2, 0.5))))
         else:
-            pars = (r.uniform(-0.5, xe[1] + 0.5), r.uniform(-0.5, ye[1] + 0.5), r.uniform(0.1, 0.8))
-            ls = partial(I['Levelset'].sphere, xLoc=pars[0], yLoc=pars[1], R=pars[2])
-            py = lambda x: math.hypot(x[0] - pars[0], x[1] - pars[1]) - pars[2]
-            cq = lambda x: 'sphere %s %s %s %s %s' % (fl(x[0]), fl(x[1]), fl(pars[0]), fl(pars[1]), fl(pars[2]))
-        k = r.choice([1.0, 10.0 ** r.uniform(-1, 3)])
-        cons = onp.array(I['LC'].compute_levelset_constraints(ls, jnp.array(U), mesh, qr, jnp.array(edges)))
-        cons2 = onp.array(I['Penalty'].evaluate_contact_constraints(ls, jnp.array(U), mesh, qr, jnp.array(edges)))
-        E = float(I['Penalty'].compute_total_penalty_contact_energy(ls, jnp.array(U), mesh, qr, jnp.array(edges), k))
-        n += 1
-        case = dict(fn='penalty', Nx=Nx, Ny=Ny, xExtent=xe, yExtent=ye, side=side, U=U.tolist(), degree=deg, levelset=which, pars=pars, stiffness=k)
-        # independent interpolation of the deformed sample points
-        etxt = []
-        worst = 0.0
-        anyneg = False
-        for ei, (el, ls_) in enumerate(edges):
-            n0, n1 = conns[el][ls_], conns[el][(ls_ + 1) % 3]
-            X0, X1 = coords[n0], coords[n1]
-            x0, x1 = X0 + U[n0], X1 + U[n1]
-            jac = math.hypot(X0[0] - X1[0], X0[1] - X1[1])
-            wphi = []
-            for qi, xi in enumerate(xg):
-                xq = (x0[0] + (x1[0] - x0[0]) * xi, x0[1] + (x1[1] - x0[1]) * xi)
-                phi = py(xq)
-                worst = max(worst, abs(phi - cons[ei][qi]), abs(phi - cons2[ei][qi]))
-                anyneg = anyneg or cons[ei][qi] < 0
-                wphi.append('(%s, %s)' % (fl(wg[qi]), cq(xq)))
-            etxt.append('(%s, %s, [%s])' % (fl(k), fl(jac), '; '.join(wphi)))
-        if worst > 1e-12:
-            ctx.fail('conclusion', 'level-set constraint values differ from the obstacle function at the deformed sample points by %r' % worst, case=case, concrete=True)
-        if not E >= 0:
-            ctx.fail('conclusion', 'penalty contact energy is negative: %r' % E, case=case, concrete=True)
-        if (E == 0.0) != (not anyneg):
-            ctx.fail('conclusion', 'penalty energy %r but %s sample point penetrates' % (E, 'a' if anyneg else 'no'), case=case, concrete=True)
-        exprs.append('fencs [penalty_total [%s]]' % '; '.join(etxt))
-        wants.append(E)
-        metas.append(case)
+            specs.append(('sphere', (r.uniform(-0.5, xe[1] + 0.5), r.uniform(-0.5, ye[1] + 0.5), r.uniform(0.1, 0.8))))
+        # directed: a circle that dips into the INTERIOR of one edge (covers a Gauss point) while both end nodes stay outside
+        el, ls_ = edges[r.randrange(len(edges))]
+        n0, n1 = conns[el][ls_], conns[el][(ls_ + 1) % 3]
+        x0, x1 = coords[n0] + U[n0], coords[n1] + U[n1]
+        Ld = math.hypot(x1[0] - x0[0], x1[1] - x0[1])
+        if Ld > 1e-6:
+            sg = r.choice([-1.0, 1.0])
+            nn = (sg * (x1[1] - x0[1]) / Ld, -sg * (x1[0] - x0[0]) / Ld)
+            d = r.uniform(0.05, 0.15) * Ld
+            gmin = min(abs(x - 0.5) for x in xg) * Ld
+            lo, hi = math.hypot(d, gmin) * 1.05, math.hypot(d, Ld / 2) * 0.95
+            if lo < hi:
+                specs.append(('sphere', (0.5 * (x0[0] + x1[0]) + d * nn[0], 0.5 * (x0[1] + x1[1]) + d * nn[1], r.uniform(lo, hi)), 'cut'))
+        for spec in specs:
+            which, pars = spec[0], spec[1]
+            if which == 'plane':
+                ls = partial(I['Levelset'].plane, yLoc=pars[0])
+                py = lambda x, pars=pars: pars[0] - x[1]
+                cq = lambda x, pars=pars: 'plane %s %s %s' % (fl(x[0]), fl(x[1]), fl(pars[0]))
+            elif which == 'corner':
+                ls = partial(I['Levelset'].corner, xLoc=pars[0], yLoc=pars[1])
+                py = lambda x, pars=pars: min(x[0] - pars[0], x[1] - pars[1])
+                cq = lambda x, pars=pars: 'corner %s %s %s %s' % (fl(x[0]), fl(x[1]), fl(pars[0]), fl(pars[1]))
+            else:
+                ls = partial(I['Levelset'].sphere, xLoc=pars[0], yLoc=pars[1], R=pars[2])
+                py = lambda x, pars=pars: math.hypot(x[0] - pars[0], x[1] - pars[1]) - pars[2]
+                cq = lambda x, pars=pars: 'sphere %s %s %s %s %s' % (fl(x[0]), fl(x[1]), fl(pars[0]), fl(pars[1]), fl(pars[2]))
+            cons = onp.array(I['LC'].compute_levelset_constraints(ls, jnp.array(U), mesh, qr, jnp.array(edges)))
+            cons2 = onp.array(I['Penalty'].evaluate_contact_constraints(ls, jnp.array(U), mesh, qr, jnp.array(edges)))
+            E = float(I['Penalty'].compute_total_penalty_contact_energy(ls, jnp.array(U), mesh, qr, jnp.array(edges), k))
+            Eedges = [float(I['Penalty'].compute_edge_penalty_contact_energy(ls, mesh, jnp.array(U), qr, jnp.array(e), k)) for e in edges]
+            n += 1
+            case = dict(fn='penalty', Nx=Nx, Ny=Ny, xExtent=xe, yExtent=ye, side=side, U=U.tolist(), degree=deg, levelset=which, pars=pars,
+                        stiffness=k, directed=(len(spec) > 2))
+            # independent interpolation of the deformed sample points and independent evaluation of the energy
+            etxt = []
+            worst = 0.0
+            anyneg_impl = False
+            anyneg = False
+            Eind = 0.0
+            for ei, (el, ls_) in enumerate(edges):
+                n0, n1 = conns[el][ls_], conns[el][(ls_ + 1) % 3]
+                X0, X1 = coords[n0], coords[n1]
+                x0, x1 = X0 + U[n0], X1 + U[n1]
+                jac = math.hypot(X0[0] - X1[0], X0[1] - X1[1])
+                wphi = []
+                Ee = 0.0
+                for qi, xi in enumerate(xg):
+                    xq = (x0[0] + (x1[0] - x0[0]) * xi, x0[1] + (x1[1] - x0[1]) * xi)
+                    phi = py(xq)
+                    worst = max(worst, abs(phi - cons[ei][qi]), abs(phi - cons2[ei][qi]))
+                    anyneg_impl = anyneg_impl or cons[ei][qi] < 0
+                    anyneg = anyneg or phi < -1e-13
+                    Ee += jac * wg[qi] * min(0.0, phi) ** 2
+                    wphi.append('(%s, %s)' % (fl(wg[qi]), cq(xq)))
+                etxt.append('(%s, %s, [%s])' % (fl(k), fl(jac), '; '.join(wphi)))
+                Eind += k * Ee
+                if abs(Eedges[ei] - k * Ee) > 1e-12 * max(k * Ee, 1e-30) + 1e-300:
+                    ctx.fail('conclusion', 'edge %d: compute_edge_penalty_contact_energy = %r but stiffness * sum_q jac w_q min(0, phi(x_q))^2 = %r'
+                             % (ei, Eedges[ei], k * Ee), case=case, concrete=True)
+            if worst > 1e-12:
+                ctx.fail('conclusion', 'level-set constraint values differ from the obstacle function at the deformed sample points by %r' % worst, case=case, concrete=True)
+            if not E >= 0:
+                ctx.fail('conclusion', 'penalty contact energy is negative: %r' % E, case=case, concrete=True)
+            if (E == 0.0) != (not anyneg_impl) or (anyneg and E == 0.0):
+                ctx.fail('conclusion', 'penalty energy %r but %s sample point penetrates' % (E, 'a' if (anyneg_impl or anyneg) else 'no'), case=case, concrete=True)
+            if abs(E - Eind) > 1e-12 * max(Eind, 1e-30) + 1e-300:
+                ctx.fail('conclusion', 'compute_total_penalty_contact_energy = %r but the independent sum over sample points is %r' % (E, Eind), case=case, concrete=True)
+            if len(spec) > 2:
+                ctx.count('directed_interior_cut_cases_with_penetration', 1 if anyneg else 0)
+            exprs.append('fencs [penalty_total [%s]]' % '; '.join(etxt))
+            wants.append(E)
+            metas.append(case)
     ctx.count('mesh_cases', n)
     if model_ok and exprs:
         res = C.coq_eval(IMPORTS, exprs, 'C16m', shard=100)
